@@ -12,6 +12,10 @@ CONSTANTS
   MaxPauses = 0
   MaxFails = 0
   F7 = TRUE
+  InitSize = 3
+  MaxJoins = 0
+  MaxParts = 0
+  Trailing = 99
 VIEW view
 SYMMETRY NodeSymmetry
 INVARIANTS
